@@ -85,7 +85,7 @@ Promote(a, b) ==
 ArrayOps == {"anew", "anewdata", "alen", "agetitem", "agetslice", "asetitem", "asetslice", "adelitem", "adelslice",
              "aappend", "aextend", "ainsert", "apop", "areverse", "acount", "atolist", "aiter", "aequals", "acopy",
              "asetdtype", "abyteswap", "atobytes", "atofile", "atrailing", "adata", "aop", "aiop", "acmp", "abitop",
-             "aunary", "aopa", "aextendarr", "afromarray", "aitemsize", "rawcall"}
+             "aunary", "aopa", "aextendarr", "afromarray", "aitemsize", "rawcall", "ascaled"}
 
 ArrayStep(objs, opts, call) ==
   LET op == call.op
@@ -110,6 +110,21 @@ ArrayStep(objs, opts, call) ==
          LET dn == call.sa[1]  dl == call.ia[1] IN
          IF ~DtypeOKForArray(dn, dl) THEN Raises({"ValueError"})
          ELSE OkArr(dn, dl, XV(objs, call.xs[1]))
+    [] op = "ascaled" ->
+         \* Array(Dtype(name, n, scale = 2^k), items): sa = <<name, how>>, ia = <<n, k>>, va = items.  Every item is
+         \* the scaled encoding of its value (DoNewScaled); what is read back is the scaled decoding of each item.
+         LET dn == call.sa[1]  dl == call.ia[1]  k == call.ia[2]
+             m == Len(call.va)
+             enc == [i \in 1..m |-> DoNewScaled(opts, dn, dl, k, call.va[i])]
+             bitsOf(i) == ObjOfVal(enc[i].vals[1]).v
+             dec == [i \in 1..m |-> DoInterpScaled(Rec("Bits", bitsOf(i), -1), dn, dl, k)] IN
+         IF ~DtypeOKForArray(dn, dl) THEN Raises({"ValueError"})
+         ELSE IF \E i \in 1..m : enc[i].free # {} THEN Unconstrained
+         ELSE IF \E i \in 1..m : enc[i].k = "raise" THEN Raises({"ValueError", "TypeError"})
+         ELSE IF \E i \in 1..m : dec[i].free # {} THEN Unconstrained
+         ELSE Ok(<<VNew("BitArray", FoldLeft(LAMBDA acc, i : acc \o bitsOf(i), <<>>, [i \in 1..m |-> i]))>>
+                   \o [i \in 1..m |-> dec[i].vals[1]],
+                 [i \in 1..(m + 1) |-> ""], NoUpd)
     [] op = "alen" -> OkV(VSmall(n))
     [] op = "aitemsize" -> OkV(VSmall(w))
     [] op = "agetitem" -> IF ListIdxOK(n, i1) THEN OkV(ItemVal(a, ListNorm(n, i1))) ELSE Raises({"IndexError"})
